@@ -142,12 +142,12 @@ package clover
 
 //@ func (*sq).area
 //@   tags (C20)
-//@   requires nn: (not (= s null))
+//@   implements shape.area
 //@   ensures ok-a: (= result (@ s a))
 
 //@ func (*rect).area
 //@   tags (C20)
-//@   requires nn: (not (= r null))
+//@   implements shape.area
 //@   ensures ok-ab: (= result (bvadd (@ r a) (@ r b)))
 
 //@ func total
@@ -422,3 +422,52 @@ package clover
 //@   ensures ok-len: (= result (len bs))
 //@   ensures bad-zero: (= result (bv 0))
 //@   loop 0 invariant ok-n: (and (= n (bvadd rangeindex (bv 1))) (bvsle n (len bs)))
+
+// ---- fourth file: interface contracts, assert-store, snapshots ----
+//@ iface shape2.side
+//@   ensures nonneg: (bvsge result (bv 0))
+
+//@ func (*good).side
+//@   tags (C20)
+//@   implements shape2.side
+
+//@ func (*evil).side
+//@   tags (C20)
+//@   implements shape2.side
+
+//@ func mk2
+//@   tags (C20)
+//@   extra allocates (yes)
+
+//@ func useShape
+//@   tags (C20)
+//@   requires nn: (not (= s vnil))
+//@   ensures ok-nonneg: (bvsge result (bv 0))
+//@   ensures bad-pos: (bvsgt result (bv 0))
+
+//@ func storeAll
+//@   tags (C20)
+//@   modifies (heap*)
+//@   assert-store slice ok-nonneg: (bvsge $val (bv 0))
+//@   assert-store slice bad-pos: (bvsgt $val (bv 0))
+//@   loop 0 invariant ok-i: true
+
+//@ func storeMap
+//@   tags (C20)
+//@   requires nn: (not (= m null))
+//@   modifies (heap*)
+//@   assert-store map ok-nonneg: (bvsge $val (bv 0))
+//@   assert-store map bad-pos: (bvsgt $val (bv 0))
+
+//@ func twoSteps
+//@   tags (C20)
+//@   modifies (heap*)
+//@   snapshot mid after setSeven
+//@   ensures ok-mid: (= result (at mid (@ b v)))
+//@   ensures ok-seven: (= result (bv 7))
+//@   ensures bad-final: (= result (@ b v))
+
+//@ func setEight
+//@   tags (C20)
+//@   modifies (heap*)
+//@   ensures ok-eight: (= (@ b v) (bv 8))
